@@ -18,6 +18,9 @@ type Check struct {
 	// Extra runs non-engine-X legs (engine R / engine E); may be nil.
 	Extra        func(tier string, shard, of int) ExtraResult
 	ExtraWorkers int
+	// MustSucceed lists operation kinds that have to succeed at least once in the exploration; otherwise the run is
+	// vacuous for this property and the check exits 2.
+	MustSucceed []string
 	// Conform selects how many explorer traces are replayed through the real ABCI pipeline.
 	Conform func(tier string) int
 }
@@ -172,6 +175,7 @@ func init() {
 			rule = toRule
 		}
 		register(&Check{ID: id, Level: "model_checking", Workers: 16, Rule: rule, Assumptions: lifeAssumptions,
+			MustSucceed: []string{"store", "complete", "renew", "terminate", "migrate", "end"},
 			Scenarios: func(tier string) []*engine.Scenario {
 				out := lifeFamily(id, tier, props(id), tweak)
 				if withTO {
@@ -270,18 +274,22 @@ func init() {
 	register(&Check{ID: "C09", Level: "model_checking", Workers: 16,
 		Rule: "explicit-state DFS over a small lifecycle (authorised updates by owner / rw grantee, renew, permission change, terminate, completion, blocks) in which EVERY state offers every unauthorised request: {update, force-push, renew, terminate, permission} x signer {ro grantee, stranger, rw grantee for owner-only types} x relayer {named gateway, adversary's node} x crafted commit ids / owner-field mismatch / replayed signatures / sid kid variants; an accepted unauthorised request must leave the model record, alias, orders, shards and expiry entry byte-identical; non-trivial = distinct states with a committed model",
 		Assumptions: authAssume,
+		MustSucceed: []string{"auth-update-owner", "auth-update-rw", "auth-renew-owner", "auth-terminate-rw", "auth-permission-owner", "auth-terminate-sid-owner", "complete"},
 		Scenarios:   func(tier string) []*engine.Scenario { return []*engine.Scenario{C09Scenario(tier)} }})
 	register(&Check{ID: "C10", Level: "model_checking", Workers: 16,
 		Rule: "explicit-state DFS over a small lifecycle with an adversary node whose declared TxAddresses range over subsets of {order creator, provider, itself}; in every state every message type with a creator/provider pair is sent by the adversary claiming {itself, the order's gateway, the shard's provider}, plus third-party and sponsor-misuse store submissions; every accepted adversarial message must leave all orders, shards, pledges, nodes, workers, models and all other actors' balances byte-identical; non-trivial = distinct states with a committed model",
 		Assumptions: authAssume,
+		MustSucceed: []string{"auth-store-gateway", "auth-store-hotkey", "auth-store-sponsor", "auth-cancel", "declare", "complete"},
 		Scenarios:   func(tier string) []*engine.Scenario { return []*engine.Scenario{C10Scenario(tier)} }})
 	register(&Check{ID: "C17", Level: "model_checking", Workers: 16,
 		Rule: "explicit-state DFS over the did alphabet: Binding(account in {A,B,C,eip155 E} x did in {d1,d2} x creator x proof in {valid, stale, signed by another key, proof for the other DID replayed, malformed}), Update (every partition of the account list into remove/keep, by a bound account and by a stranger), UpdatePaymentAddress (sid and key DIDs x creator x account); registry agreement clauses in every state, binding/unbinding/payment-address step clauses on every transition; non-trivial = distinct states with at least one binding",
 		Assumptions: []string{"secp256k1 / EIP-191 signature verification is trusted", "three cosmos accounts, one eip155 account, two sid DIDs, two key DIDs"},
+		MustSucceed: []string{"bind", "rotate", "payaddr"},
 		Scenarios:   func(tier string) []*engine.Scenario { return []*engine.Scenario{C17Scenario(tier)} }})
 	register(&Check{ID: "C19", Level: "model_checking", Workers: 16,
 		Rule: "explicit-state DFS from a root with two completed orders: Report(creator in {fishman F1, fishman F2, ordinary node, non-node} x accused in {S1,S2} x fault in {exact, commit matches, wrong order, wrong data id, shard of other provider, nonexistent shard, provider field mismatch, other order}), Recover(creator in {accused, other provider, fishman, ordinary node, non-node}), block advance to the 600-block penalty tick and across expiry; every recorded fault is validated against the pre-state, every report/recover step must leave balances, orders, shards, nodes and other providers' pledges byte-identical; non-trivial = distinct states with at least one fault record",
 		Assumptions: []string{"confirmation by a second fishman is unreachable in the current code (reporter comparison is always equal), so confirmed faults and the penalty settlement are not exercised; reported in DESIGN.md", "SDK modules are trusted"},
+		MustSucceed: []string{"report", "recover", "migrate", "complete", "end"},
 		Scenarios:   func(tier string) []*engine.Scenario { return []*engine.Scenario{C19Scenario(tier)} }})
 	rAssume := []string{"Tendermint is replaced by a driver that feeds the same RequestBeginBlock / DeliverTx / EndBlock / Commit stream to both replicas", "the clock and map-iteration seams are std-library overlays applied at build time of the harness binary (go build -overlay); for maps with more than 8 entries the 8 enumerated words are a subset of the runtime's freedom", "non-consensus calls are inserted between consensus calls, not concurrently with them", "cross-architecture floating point (Node.reputation float32) is not examined"}
 	register(&Check{ID: "C01", Level: "exploration", ExtraWorkers: 16,
@@ -295,6 +303,7 @@ func init() {
 	register(&Check{ID: "C20", Level: "model_checking", Workers: 16,
 		Rule: "explicit-state DFS over {delegate / undelegate / redelegate by two nodes and an outsider on two validators with amounts below / at / above the share threshold, all, and more than the balance (fails between the hooks); add / remove capacity across the threshold; reset with full or partial status and validator in {unset, V, V2}; full end-blocker of the module manager (validator set updates, unbonding maturity)} from a fresh root and from a root with an existing super node; in every state: role super => full status, pledge >= threshold, own shares / validator shares >= threshold (recomputed through the staking keeper); non-trivial = distinct states with at least one super node",
 		Assumptions: []string{"staking, bank and distribution modules are trusted", "two validators, two nodes, one outsider; slashing / jailing is not driven"},
+		MustSucceed: []string{"delegate", "undelegate", "redelegate", "reset", "addv", "removev", "fullend"},
 		Scenarios:   func(tier string) []*engine.Scenario { return []*engine.Scenario{C20Scenario(tier)} }})
 	register(&Check{ID: "C18", Level: "model_checking", Workers: 16, ExtraWorkers: 8,
 		Rule: "explicit-state DFS over the lifecycle (with updates, renewals, migrations), fault-report, staking / super-node and timeout alphabets; in EVERY reached state the six modules' real ExportGenesis -> JSON -> Validate() -> real InitGenesis into empty custom stores, raw comparison of the custom stores, then every enabled operation (and block advance) is applied to both the original and the re-imported state and results, stores and balances are compared; plus the full pipeline ExportAppStateAndValidators -> ValidateGenesis -> InitChain on a fresh application -> two blocks after every block of the engine-R scripts; non-trivial = distinct states with at least one order or fault record",
